@@ -4,6 +4,7 @@ import (
 	"encoding/json"
 	"fmt"
 	"os"
+	"regexp"
 	"runtime"
 	"strings"
 	"sync"
@@ -12,7 +13,6 @@ import (
 
 	"pgregory.net/rapid"
 
-	"github.com/lindb/lindb/series/metric"
 	"github.com/lindb/lindb/verifharness/sim/ev"
 )
 
@@ -25,8 +25,11 @@ import (
 //	                                                   which calls GenTagKeyID / GenTagValueID)
 //	goroutine n+1..    index workers of further shards, reduced to their calls against the shared
 //	                   metadata database            (GenMetricID, GenTagKeyID, GenTagValueID)
+//	0..2 more          query goroutines: 1-4 read-only metadata queries each (query_test.go) about
+//	                   names of earlier rounds and names that are being created in this round
 //
-// One index database is only ever used by one goroutine at a time, as in production. PrepareFlush /
+// Every creator goroutine owns one wire (c09_test.go): its []byte arguments live in reused buffers
+// that are overwritten after each call. One index database is only ever used by one goroutine at a time, as in production. PrepareFlush /
 // Flush steps (production order) are placed between rounds. The schedule inside a round belongs to
 // the Go scheduler: this part is schedule dependent by nature and a failure is reported with the
 // complete record of the round.
@@ -37,6 +40,7 @@ type roundRec struct {
 	Roles     []string    `json:"roles"`
 	Work      [][]rowSpec `json:"rows_per_goroutine"`
 	Answers   [][]string  `json:"answers_per_goroutine"`
+	Queries   [][]string  `json:"queries_per_query_goroutine,omitempty"`
 	SharedNew int         `json:"rows_with_new_names_given_to_2+_goroutines"`
 }
 
@@ -44,7 +48,10 @@ type conc struct {
 	t      *rapid.T
 	n      *node
 	m      *model
-	k      int
+	k      int // creators
+	nq     int // goroutines running read-only metadata queries next to the creators
+	mode   string
+	nQuery int // queries run so far
 	nIdx   int
 	roles  []string
 	fresh  int
@@ -54,6 +61,7 @@ type conc struct {
 	cur    int
 	flog   []string
 	rounds []roundRec
+	wires  []*wire // one per goroutine
 }
 
 func (c *conc) freshName(prefix string) string {
@@ -108,6 +116,58 @@ func (c *conc) genRow(label string) (rowSpec, bool) {
 	return r, isNew
 }
 
+// genQuery draws one read-only query around a row of the pool. Plans that need a tag key id use
+// the id the model learnt in an earlier (quiescent) round, see querySpec.UseKeyID.
+func (c *conc) genQuery(pool []rowSpec) querySpec {
+	t := c.t
+	r := rapid.SampledFrom(pool).Draw(t, "q.row")
+	q := querySpec{NS: r.NS, Metric: r.Name, Limit: rapid.SampledFrom([]int{1, 3, 10, 100}).Draw(t, "q.limit")}
+	kinds := []string{qNamespaces, qMetrics, qSeries}
+	var key kvPair
+	if len(r.Tags) > 0 {
+		key = rapid.SampledFrom(r.Tags).Draw(t, "q.tag")
+		if mm := c.m.metrics[r.mkey()]; mm != nil {
+			if tk := mm.tagKeys[key.K]; tk != nil && tk.has {
+				q.UseKeyID, q.KeyID = true, tk.id
+				kinds = append(kinds, qTagValues, qTagFilter, qAllValues, qSeries, qTagValues, qTagFilter)
+			}
+		}
+	}
+	q.Kind = rapid.SampledFrom(kinds).Draw(t, "q.kind")
+	switch q.Kind {
+	case qNamespaces:
+		q.Prefix = cutName(t, "q.cut", q.NS)
+	case qMetrics:
+		q.Prefix = cutName(t, "q.cut", q.Metric)
+		q.Metric = ""
+	case qSeries:
+		if q.UseKeyID && rapid.Bool().Draw(t, "q.withKey") {
+			q.Key = key.K
+		} else {
+			q.UseKeyID, q.KeyID = false, 0
+		}
+	case qTagValues:
+		q.Key, q.Prefix = key.K, cutName(t, "q.cut", key.V)
+	case qAllValues:
+		q.Key = key.K
+	case qTagFilter:
+		q.Key = key.K
+		q.Expr = rapid.SampledFrom([]string{"eq", "in", "like", "regex"}).Draw(t, "q.expr")
+		v := key.V
+		switch q.Expr {
+		case "eq":
+			q.Args = []string{v}
+		case "in":
+			q.Args = []string{v, rapid.SampledFrom(valUniverse).Draw(t, "q.inVal")}
+		case "like":
+			q.Args = []string{rapid.SampledFrom([]string{"*", v[:1] + "*", "*" + v[len(v)-1:], v}).Draw(t, "q.like")}
+		default:
+			q.Args = []string{rapid.SampledFrom([]string{"^" + regexp.QuoteMeta(v[:1]), regexp.QuoteMeta(v) + "$", ".*"}).Draw(t, "q.regex")}
+		}
+	}
+	return q
+}
+
 // flushStep advances the production flush protocol by one step (see history_test.go).
 func (c *conc) flushStep() error {
 	switch c.phase {
@@ -150,12 +210,15 @@ func (c *conc) flushStep() error {
 
 func (c *conc) fail(rec *roundRec, format string, args ...any) {
 	var sb strings.Builder
-	fmt.Fprintf(&sb, "round %d, %d goroutines, %d index databases", rec.Round, c.k, c.nIdx)
+	fmt.Fprintf(&sb, "round %d, %d creator + %d query goroutines, %d index databases, []byte arguments in reused buffers (overwritten after each call: %s)", rec.Round, c.k, c.nq, c.nIdx, c.mode)
 	if len(rec.FlushLog) > 0 {
 		fmt.Fprintf(&sb, "; flush steps since the previous round: %v", rec.FlushLog)
 	}
 	for g := range rec.Work {
 		fmt.Fprintf(&sb, "\n  goroutine %d (%s)\n    rows:    %v\n    answers: %s", g, rec.Roles[g], rec.Work[g], strings.Join(rec.Answers[g], "; "))
+	}
+	for g := range rec.Queries {
+		fmt.Fprintf(&sb, "\n  query goroutine %d\n    %s", g, strings.Join(rec.Queries[g], "\n    "))
 	}
 	c.t.Fatalf(format+"\n%s", append(args, sb.String())...)
 }
@@ -199,21 +262,56 @@ func (c *conc) round(no int) {
 		}
 	}
 	rec.Work = work
-	// every goroutine decodes its own row objects (iterators live inside the row)
-	rows := make([][]*metric.StorageRow, c.k)
+	// the blocks as they arrive from the brokers; every goroutine decodes them into its own
+	// receive buffer (wire) right before the call
+	blocks := make([][][]byte, c.k)
 	for g := range work {
 		for _, r := range work[g] {
-			row, err := buildRow(r)
+			block, err := marshalRow(r)
 			if err != nil {
 				t.Fatalf("harness: build row %s: %v", r, err)
 			}
-			rows[g] = append(rows[g], row)
+			blocks[g] = append(blocks[g], block)
 		}
 	}
+	// read-only metadata queries of this round (query_test.go): about names of earlier rounds and
+	// about the names that are being created right now
+	qwork := make([][]querySpec, c.nq)
+	if c.nq > 0 {
+		pool := append([]rowSpec{}, c.known...)
+		for i := range shared {
+			pool = append(pool, shared[i].r)
+		}
+		for g := range qwork {
+			for i := rapid.IntRange(1, 4).Draw(t, "nQueries"); i > 0; i-- {
+				qwork[g] = append(qwork[g], c.genQuery(pool))
+			}
+		}
+	}
+	qans := make([][]*queryOut, c.nq)
+	qerrs := make([]error, c.nq)
 	answers := make([][][]obs, c.k)
 	errs := make([]error, c.k)
 	var ready, start atomic.Int32
 	var wg sync.WaitGroup
+	for g := 0; g < c.nq; g++ {
+		wg.Add(1)
+		go func(g int) {
+			defer wg.Done()
+			ready.Add(1)
+			for start.Load() == 0 {
+				runtime.Gosched()
+			}
+			for _, q := range qwork[g] {
+				out, err := execQuery(c.n, q)
+				if err != nil {
+					qerrs[g] = fmt.Errorf("%s: %w", q, err)
+					return
+				}
+				qans[g] = append(qans[g], out)
+			}
+		}(g)
+	}
 	for g := 0; g < c.k; g++ {
 		wg.Add(1)
 		go func(g int) {
@@ -227,11 +325,11 @@ func (c *conc) round(no int) {
 				var err error
 				switch {
 				case g == 0:
-					err = metaWorkerRow(c.n, r, rows[g][j], &out)
+					err = metaWorkerRow(c.n, c.wires[g], r, &out)
 				case g <= c.nIdx:
-					err = indexWorkerRow(c.n, g-1, r, rows[g][j], &out)
+					err = indexWorkerRow(c.n, c.wires[g], g-1, r, blocks[g][j], &out)
 				default:
-					err = shardMetaCalls(c.n, r, rows[g][j], &out)
+					err = shardMetaCalls(c.n, c.wires[g], r, &out)
 				}
 				answers[g] = append(answers[g], out)
 				if err != nil {
@@ -241,12 +339,22 @@ func (c *conc) round(no int) {
 			}
 		}(g)
 	}
-	for int(ready.Load()) < c.k {
+	for int(ready.Load()) < c.k+c.nq {
 		runtime.Gosched()
 	}
 	start.Store(1)
 	wg.Wait()
 
+	rec.Queries = make([][]string, c.nq)
+	for g := range qwork {
+		for j, q := range qwork[g] {
+			line := q.String()
+			if j < len(qans[g]) {
+				line += " -> " + qans[g][j].String()
+			}
+			rec.Queries[g] = append(rec.Queries[g], line)
+		}
+	}
 	rec.Answers = make([][]string, c.k)
 	for g := range answers {
 		for _, out := range answers[g] {
@@ -271,6 +379,19 @@ func (c *conc) round(no int) {
 			}
 		}
 	}
+	// the queries that ran next to the creators: a lookup reports the id the creators were told, finds
+	// every name of earlier rounds and no name nobody created
+	for g := range qwork {
+		if qerrs[g] != nil {
+			c.fail(&rec, "round %d: query goroutine %d: a query failed: %v", no, g, qerrs[g])
+		}
+		for j, q := range qwork[g] {
+			if err := c.m.judge(q, qans[g][j], false); err != nil {
+				c.fail(&rec, "round %d: query goroutine %d: %v", no, g, err)
+			}
+			c.nQuery++
+		}
+	}
 	// oracle 2: different names <-> different ids; oracle 3: the lookups agree with the creators
 	if err := checkSome(c.n, c.m, touched); err != nil {
 		c.fail(&rec, "round %d: %v", no, err)
@@ -281,7 +402,7 @@ func (c *conc) round(no int) {
 	if len(c.known) > 64 {
 		c.known = c.known[len(c.known)-64:]
 	}
-	rec.Answers = nil // keep the kept record small
+	rec.Answers, rec.Queries = nil, nil // keep the kept record small
 	c.rounds = append(c.rounds, rec)
 }
 
@@ -321,6 +442,11 @@ func runConcurrent(t *rapid.T, rounds int) {
 	}
 	defer n.closeRaw()
 	c := &conc{t: t, n: n, m: newModel(nIdx), k: k, nIdx: nIdx}
+	c.nq = rapid.SampledFrom([]int{0, 1, 1, 2}).Draw(t, "queryGoroutines")
+	c.mode = rapid.SampledFrom(wireModes).Draw(t, "wireMode")
+	for g := 0; g < k; g++ {
+		c.wires = append(c.wires, newWire(c.mode))
+	}
 	for g := 0; g < k; g++ {
 		switch {
 		case g == 0:
@@ -357,9 +483,17 @@ func runConcurrent(t *rapid.T, rounds int) {
 	ev.Class("TestConcurrentAssign", "shared-rows-with-new-names", sharedNew)
 	ev.Class("TestConcurrentAssign", "flush-steps-between-rounds", flushSteps)
 	ev.Class("TestConcurrentAssign", fmt.Sprintf("goroutines-%d", k), 1)
+	ev.Class("TestConcurrentAssign", fmt.Sprintf("query-goroutines-%d", c.nq), 1)
+	ev.Class("TestConcurrentAssign", "queries-next-to-creators", c.nQuery)
+	ev.Class("TestConcurrentAssign", "wire-"+c.mode, 1)
+	calls := 0
+	for _, w := range c.wires {
+		calls += w.calls + w.rows
+	}
+	ev.Class("TestConcurrentAssign", "wire-calls-with-reused-arguments", calls)
 	ev.Class("TestConcurrentAssign", fmt.Sprintf("index-databases-%d", nIdx), 1)
 	ev.Case("TestConcurrentAssign", string(canon), sharedNew > 0, nil, map[string]any{
-		"goroutines": k, "index_databases": nIdx, "rounds": rounds, "first_round": c.rounds[0],
+		"goroutines": k, "query_goroutines": c.nq, "wire_mode": c.mode, "index_databases": nIdx, "rounds": rounds, "first_round": c.rounds[0],
 	})
 }
 
@@ -435,22 +569,58 @@ func stressOnce(t *testing.T, iter int) {
 	}
 	answers := make([][]answer, 1+nIdx)
 	errs := make([]error, 1+nIdx)
-	barrierRun(1+nIdx, func(g int) {
+	wires := make([]*wire, 1+nIdx) // one per worker; the mode rotates with the iteration
+	for g := range wires {
+		wires[g] = newWire(wireModes[(iter+g)%len(wireModes)])
+	}
+	// goroutine 1+nIdx runs read-only metadata queries next to the workers and the flush job. Only
+	// plans that do not read the live schema object (see querySpec.UseKeyID), and none that names ids
+	// through a second call (FindTagValueIDsForTag + CollectTagValues read two different snapshots
+	// when a flush completes in between: a transient anomaly that says nothing about id assignment).
+	var qspecs []querySpec
+	var qouts []*queryOut
+	var qerr error
+	var working atomic.Int32 // the query goroutine runs as long as a worker does
+	working.Store(1 + nIdx)
+	barrierRun(2+nIdx, func(g int) {
+		if g == 1+nIdx {
+			for i := 0; working.Load() > 0; i++ {
+				j := (i*11 + iter) % perWorker
+				q := querySpec{NS: "ns", Metric: fmt.Sprintf("m%d", j%40), Limit: []int{1, 10, 100}[i%3]}
+				switch i % 4 {
+				case 0:
+					q.Kind, q.Prefix = qMetrics, []string{"", "m", "m1", "m3"}[j%4]
+					q.Metric = ""
+				case 1:
+					q.Kind, q.Prefix = qNamespaces, []string{"", "n", "ns"}[j%3]
+				default:
+					q.Kind = qSeries
+				}
+				out, err := execQuery(n, q)
+				if err != nil {
+					qerr = fmt.Errorf("%s: %w", q, err)
+					return
+				}
+				qspecs, qouts = append(qspecs, q), append(qouts, out)
+			}
+			return
+		}
+		defer working.Add(-1)
 		for i := 0; i < perWorker; i++ {
 			j := (i*7 + iter) % perWorker
 			r := rowSpec{NS: "ns", Name: fmt.Sprintf("m%d", j%40),
 				Tags:   []kvPair{{"host", fmt.Sprintf("h%d", j%97)}, {"zone", fmt.Sprintf("z%d", j%7)}},
 				Fields: []string{fmt.Sprintf("f%d", j%5)}}
-			row, err := buildRow(r)
+			block, err := marshalRow(r)
 			if err != nil {
 				errs[g] = err
 				return
 			}
 			var out []obs
 			if g == 0 {
-				err = metaWorkerRow(n, r, row, &out)
+				err = metaWorkerRow(n, wires[g], r, &out)
 			} else {
-				err = indexWorkerRow(n, g-1, r, row, &out)
+				err = indexWorkerRow(n, wires[g], g-1, r, block, &out)
 			}
 			if err != nil {
 				errs[g] = err
@@ -474,6 +644,16 @@ func stressOnce(t *testing.T, iter int) {
 			}
 		}
 	}
+	if qerr != nil {
+		t.Fatalf("iteration %d (%d flush cycles ran next to the workers): query goroutine: %v", iter, cycles, qerr)
+	}
+	for i, q := range qspecs {
+		// nothing is required to be found (the model's clock stands still: every name is "of this round")
+		if err := m.judge(q, qouts[i], false); err != nil {
+			t.Fatalf("iteration %d (%d flush cycles ran next to the workers): query goroutine, query #%d: %v", iter, cycles, i, err)
+		}
+	}
+	ev.Class("TestConcurrentFlushStress", "queries-next-to-workers-and-flush", len(qspecs))
 	if err := checkAll(n, m, true); err != nil {
 		t.Fatalf("iteration %d (%d flush cycles ran next to the workers; goroutine 0 = metadata worker, 1..%d = index workers): %v", iter, cycles, nIdx, err)
 	}
